@@ -229,13 +229,25 @@ def _docs(job, ctx):
                      ("garbage", 0, b"\x00\x01\x02not a document"), ("empty", 0, b"")]
         if fmt == "xml":
             variants.append(("wrong-root", 0, doc.replace(b"<config", b"<other").replace(b"</config>", b"</other>")))
+        # documents whose root is not a map (the formats that can write one): scalars, lists, and lists that start with
+        # well-formed [key, value] pairs of this schema
+        wrong_roots = []
+        if fmt in ("json", "yaml", "pickle"):
+            keys = [k for k, f in spec["fields"] if f["k"] not in ("Schema", "CType", "List")]
+            pairs = [[k, 7] for k in keys[:2]]
+            for ri, root in enumerate([[1, 2, 3], "text", 5, pairs + [5], pairs + [["w"]], [pairs[0], "x"] if pairs else ["x"]]):
+                try:
+                    variants.append(("root-not-a-map", ri, fmtr.dumps(None, root)))
+                    wrong_roots.append(ri)
+                except Exception:  # noqa
+                    pass
         for kind, i, data in variants:
             if only is not None and only != [hi, kind, i]:
                 continue
             # classify: does the *formatter* fail to parse it?
             try:
                 fmtr.loads(None, data)
-                parse_fails = False
+                parse_fails = kind == "root-not-a-map"        # decodes, but not to a configuration tree
             except Exception:  # noqa
                 parse_fails = True
             w = W.build_world(spec, hist)
@@ -250,6 +262,8 @@ def _docs(job, ctx):
             if not parse_fails:
                 continue
             case = _case(job, [hi, kind, i])
+            if raised is None and kind == "root-not-a-map":
+                continue          # whether such a document is rejected is not C06's business; if it is, nothing may change
             if raised is None:
                 ctx.violation("C06|docs|%s|%s|unparseable-accepted" % (fmt, kind), "%s document variant %s[%d] does not parse, yet loads() returned" % (fmt, kind, i), case, size=i)
                 continue
@@ -279,7 +293,7 @@ def _includes(job, ctx):
 
     for fmt in ("json", "yaml", "xml", "bson", "pickle"):
         real_open(secret, "wb").write(cc.ConfigFormat.get(fmt).dumps(None, {"x": 9}))
-        for where in ("root", "nested"):
+        for where in ("root", "nested", "chained"):
             for fault, path in (("missing", os.path.join(tmp, "nope.inc")), ("directory", os.path.join(tmp, "adir")), ("unreadable", secret),
                                 ("missing-relative", "nope-rel.inc"), ("unparseable", os.path.join(tmp, "garbage.inc"))):
                 for prior in ("fresh", "assigned", "dynamic"):
@@ -296,6 +310,13 @@ def _includes(job, ctx):
                     if where == "root":
                         s.include = cc.IncludeField()
                         tree = {"x": 2, "y": "new", "sub": {"x": 3, "l": [5]}, "include": path}
+                    elif where == "chained":
+                        # the root's include is fine; the section it brings in names an include of its own that is not
+                        s.include = cc.IncludeField()
+                        s.sub.include = cc.IncludeField()
+                        good = os.path.join(tmp, "good-%s.inc" % fmt)
+                        real_open(good, "wb").write(cc.ConfigFormat.get(fmt).dumps(None, {"sub": {"x": 3, "l": [5], "include": path}}))
+                        tree = {"x": 2, "y": "new", "include": good}
                     else:
                         s.sub.include = cc.IncludeField()
                         tree = {"x": 2, "y": "new", "sub": {"x": 3, "l": [5], "include": path}}
